@@ -802,6 +802,14 @@ def _split_loop(qual):
         c = call(loop, "_misc.random_splitter")
         if _unparse_norm(c) != "_misc.random_splitter(rng,nmole)":
             raise SelectorMiss("splitter call")
+        # one random stream per call, created from the seed before any loop (never re-seeded per group / set,
+        # never derived from hash(), id() or the clock)
+        seeds = [n for n in ordered(fn) if isinstance(n, ast.Call) and ast.unparse(n.func).endswith("default_rng")]
+        if len(seeds) != 1 or _unparse_norm(seeds[0]) != "np.random.default_rng(seed=seed)":
+            raise SelectorMiss("random stream is not default_rng(seed=seed), created once")
+        for anc in ast.walk(fn):
+            if isinstance(anc, (ast.For, ast.While)) and any(x is seeds[0] for x in ast.walk(anc)):
+                raise SelectorMiss("random stream created inside a loop")
         # both halves are means of the masked stack
         src = _unparse_norm(loop)
         if not (("dsk[ind0].rechunk(chunksize).mean(axis=0)" in src and "dsk[ind1].rechunk(chunksize).mean(axis=0)" in src)
